@@ -88,6 +88,10 @@ Lemma dollar_name_S n c endc :
   end.
 Proof. reflexivity. Qed.
 
+Lemma walk_here_lt n p X :
+  walk_here g (S n) (mkcur p (cLT :: cLT :: X)) = Ok (mkcur (Some cLT) X).
+Proof. reflexivity. Qed.
+
 Lemma walk_complex_S n c endc level first :
   walk_complex g (S n) c endc level first =
   match suf c with
@@ -252,10 +256,11 @@ Lemma tok_ind2 (P : tok -> Prop) :
   (forall c, P (TLit c)) -> (forall c, P (TEsc c)) -> (forall s, P (TSq s)) ->
   (forall l, P (TDq l)) -> (forall s, P (TPE s)) -> (forall l, P (TAnsi l)) ->
   (forall s, P (TVar s)) -> (forall l, Forall P l -> P (TArith l)) -> (forall l, Forall P l -> P (TDqx l)) ->
+  P THs -> (forall l, P (TSub l)) ->
   (forall l, Forall P l -> P (TBr l)) -> (forall l, Forall P l -> P (TPar l)) ->
   forall t, P t.
 Proof.
-  intros H1 H2 H3 H4 H5 H5' Hv Ha Hd H6 H7. fix IH 1. intros [c|c|s|l|s|l|s|l|l|l|l].
+  intros H1 H2 H3 H4 H5 H5' Hv Ha Hd Hh Hsu H6 H7. fix IH 1. intros [c|c|s|l|s|l|s|l|l| |l|l|l].
   - apply H1.
   - apply H2.
   - apply H3.
@@ -265,6 +270,8 @@ Proof.
   - apply Hv.
   - apply Ha. induction l as [|t l IHl]; constructor; [apply IH | exact IHl].
   - apply Hd. induction l as [|t l IHl]; constructor; [apply IH | exact IHl].
+  - apply Hh.
+  - apply Hsu.
   - apply H6. induction l as [|t l IHl]; constructor; [apply IH | exact IHl].
   - apply H7. induction l as [|t l IHl]; constructor; [apply IH | exact IHl].
 Qed.
@@ -407,6 +414,233 @@ Proof.
 Qed.
 End W2.
 
+Lemma forallb_neq_sq s : forallb sq_char s = true -> forallb (fun x => negb (x =? cSQ)) s = true.
+Proof.
+  induction s as [|x s IH]; cbn; [reflexivity|]. intros H. apply andb_true_iff in H as [H1 H2].
+  unfold sq_char in H1. apply andb_true_iff in H1 as [H1 _]. rewrite H1. now apply IH.
+Qed.
+
+(* ---------------------------------------------------------------- statement starts *)
+Lemma isblank_isspace c : isblank c = true -> isspace c = true.
+Proof.
+  unfold isblank. intros H. apply orb_true_iff in H as [H|H]; apply N.eqb_eq in H; subst; reflexivity.
+Qed.
+
+Lemma no_eq_app a b : no_eq_before_stop a = true -> no_eq_before_stop (a ++ b) = true.
+Proof.
+  induction a as [|c a IH]; cbn [no_eq_before_stop app]; [discriminate|].
+  destruct (envvar_stop c); [reflexivity|]. destruct (c =? cEQ); [discriminate|]. exact IH.
+Qed.
+Lemma first_nonblank_app a b d : first_nonblank a = Some d -> first_nonblank (a ++ b) = Some d.
+Proof.
+  induction a as [|c a IH]; cbn [first_nonblank app]; [discriminate|]. destruct (isblank c); [exact IH|auto].
+Qed.
+Lemma word_then_app a b d : word_then a = Some d -> word_then (a ++ b) = Some d.
+Proof.
+  induction a as [|c a IH]; cbn [word_then app]; [discriminate|].
+  destruct (name_stop c); [|exact IH].
+  intros H. change (c :: a ++ b) with ((c :: a) ++ b). now apply first_nonblank_app.
+Qed.
+Lemma diverges_app w a b : diverges w a = true -> starts_with w (a ++ b) = false.
+Proof.
+  revert a; induction w as [|x w IH]; intros [|y a]; cbn; try discriminate.
+  destruct (x =? y); [|reflexivity]. intros H. rewrite IH by assumption. reflexivity.
+Qed.
+
+Lemma envvar_scan_none s : forall f p, no_eq_before_stop s = true -> envvar_scan f p s = None.
+Proof.
+  induction s as [|c s IH]; intros f p; cbn [no_eq_before_stop envvar_scan]; [discriminate|].
+  destruct (envvar_stop c); [reflexivity|]. destruct (c =? cEQ); [discriminate|]. apply IH.
+Qed.
+
+Lemma skip_blank_spec t : forall p,
+  match skip_while isblank p t with
+  | None => first_nonblank t = None
+  | Some c => exists x r, suf c = x :: r /\ first_nonblank t = Some x
+  end.
+Proof.
+  induction t as [|d t IH]; intros p; cbn [skip_while first_nonblank]; [reflexivity|].
+  destruct (isblank d); [apply IH|]. cbn [suf]. eauto.
+Qed.
+
+Lemma word_then_skip s : forall p,
+  match skip_while (fun x => negb (name_stop x)) p s with
+  | None => word_then s = None
+  | Some c => word_then s = first_nonblank (suf c)
+  end.
+Proof.
+  induction s as [|c s IH]; intros p; cbn [skip_while word_then]; [reflexivity|].
+  destruct (name_stop c); cbn [negb]; [reflexivity|apply IH].
+Qed.
+
+Lemma is_envvar_none p c r :
+  isspace c = false -> no_eq_before_stop (c :: r) = true -> is_envvar (mkcur p (c :: r)) = None.
+Proof.
+  intros Hc H. unfold is_envvar. cbn [prev suf skip_while].
+  destruct (isblank c) eqn:E; [apply isblank_isspace in E; congruence|].
+  cbn [opt_bind prev suf]. now rewrite envvar_scan_none.
+Qed.
+
+Lemma is_function_none p c r d :
+  isspace c = false -> starts_with kw_function (c :: r) = false ->
+  word_then (c :: r) = Some d -> (d =? cLP) = false ->
+  is_function (mkcur p (c :: r)) = None.
+Proof.
+  intros Hc Hk Hw Hd. unfold is_function. cbn [prev suf skip_while].
+  destruct (isblank c) eqn:E; [apply isblank_isspace in E; congruence|].
+  cbn [opt_bind prev suf]. rewrite Hk. cbn [prev suf skip_while]. rewrite Hc. cbn [opt_bind prev suf].
+  pose proof (word_then_skip (c :: r) p) as W.
+  destruct (skip_while (fun x => negb (name_stop x)) p (c :: r)) as [c4|]; [|reflexivity].
+  cbn [opt_bind]. destruct (slice (c :: r) (suf c4)); [reflexivity|].
+  rewrite Hw in W.
+  pose proof (skip_blank_spec (suf c4) (prev c4)) as B.
+  destruct (skip_while isblank (prev c4) (suf c4)) as [c5|]; [|reflexivity].
+  cbn [opt_bind]. destruct B as (x & r5 & E5 & F). rewrite E5.
+  rewrite F in W. injection W as ->. rewrite Hd. reflexivity.
+Qed.
+
+Lemma is_function_stop p c r :
+  isspace c = false -> starts_with kw_function (c :: r) = false -> name_stop c = true ->
+  is_function (mkcur p (c :: r)) = None.
+Proof.
+  intros Hc Hk Hs. unfold is_function. cbn [prev suf skip_while].
+  destruct (isblank c) eqn:E; [apply isblank_isspace in E; congruence|].
+  cbn [opt_bind prev suf]. rewrite Hk. cbn [prev suf skip_while]. rewrite Hc. cbn [opt_bind prev suf skip_while].
+  rewrite Hs. cbn [negb opt_bind suf]. now rewrite slice_self.
+Qed.
+
+
+(* ---------------------------------------------------------------- $( one simple command ) *)
+Section Sub.
+Variable g : str.
+
+(* walk_command_complex with endchar ")" over flat tokens *)
+Definition WFc (l : list tok) : Prop :=
+  forall n p rest first, (n > 3 * length (render_toks l))%nat ->
+  walk_complex g n (mkcur p (render_toks l ++ cRP :: rest)) cRP COMMAND first
+  = Ok (mkcur (lastp p (render_toks l)) (cRP :: rest)).
+
+Lemma WFc_nil : WFc [].
+Proof. intros n p rest first Hn. destruct n as [|n]; [cbn in Hn; lia|]. reflexivity. Qed.
+
+Lemma render_toks_cons' t l : render_toks (t :: l) = render_tok t ++ render_toks l.
+Proof. reflexivity. Qed.
+
+Lemma next_char' s tl endc rest :
+  follow_ok (TVar s) tl = true -> var_follow s endc = true ->
+  exists c Y, render_toks tl ++ endc :: rest = c :: Y /\ var_follow s c = true.
+Proof.
+  unfold follow_ok. intros H He. destruct (render_toks tl) as [|c Y]; cbn [app]; eauto.
+Qed.
+
+Lemma WFc_cons t tl : flat_tok t = true -> follow_ok t tl = true -> WFc tl -> WFc (t :: tl).
+Proof.
+  intros Hok Hfo IH n p rest first Hn. rewrite render_toks_cons' in *.
+  destruct t as [c|c|s|l|s|l|s|l|l| |l|l|l]; try discriminate Hok;
+    cbn [render_tok flat_tok] in *; rewrite ?app_length in Hn; cbn [length] in Hn; (destruct n as [|n]; [lia|]).
+  - (* TLit *)
+    change (([c] ++ render_toks tl) ++ cRP :: rest) with (c :: (render_toks tl ++ cRP :: rest)).
+    rewrite walk_complex_S. cbn [suf].
+    ctest Hok; cbn [orb andb negb COMMAND]; rewrite ?adv1_cons; (rewrite IH; [|lia]); lastp_norm.
+  - (* TEsc *)
+    change (([cBS; c] ++ render_toks tl) ++ cRP :: rest) with (cBS :: c :: (render_toks tl ++ cRP :: rest)).
+    rewrite walk_complex_S. cbn [suf]. cbn. rewrite ?adv1_cons. (rewrite IH; [|lia]); lastp_norm.
+  - (* TSq *)
+    replace ((([cSQ] ++ s ++ [cSQ]) ++ render_toks tl) ++ cRP :: rest)
+      with (cSQ :: (s ++ cSQ :: (render_toks tl ++ cRP :: rest)))
+      by (cbn; rewrite <- !app_assoc; reflexivity).
+    rewrite walk_complex_S. cbn [suf]. assert (Hs' := forallb_neq_sq s Hok).
+    cbn -[walk_no_parsing walk_complex]. rewrite ?adv1_cons.
+    rewrite walk_no_parsing_app by assumption. rewrite adv1_cons.
+    (rewrite IH; [|lia]); lastp_norm.
+  - (* TDq *)
+    replace ((([cDQ] ++ render_pairs l ++ [cDQ]) ++ render_toks tl) ++ cRP :: rest)
+      with (cDQ :: (render_pairs l ++ cDQ :: (render_toks tl ++ cRP :: rest)))
+      by (cbn; rewrite <- !app_assoc; reflexivity).
+    rewrite walk_complex_S. cbn [suf].
+    cbn -[walk_escaped walk_complex]. rewrite ?adv1_cons.
+    (rewrite walk_dq; [|assumption|lia]). cbn [bind]. rewrite adv1_cons.
+    (rewrite IH; [|lia]); lastp_norm.
+  - (* TPE *)
+    replace ((([cDOL; cLB] ++ s ++ [cRB]) ++ render_toks tl) ++ cRP :: rest)
+      with (cDOL :: (cLB :: s ++ cRB :: (render_toks tl ++ cRP :: rest)))
+      by (cbn; rewrite <- !app_assoc; reflexivity).
+    rewrite walk_complex_S. cbn [suf].
+    cbn -[walk_dollar walk_complex]. rewrite ?adv1_cons.
+    (rewrite walk_dollar_pe; [|assumption|lia]). cbn [bind].
+    (rewrite IH; [|lia]); lastp_norm.
+  - (* TAnsi *)
+    replace ((([cDOL; cSQ] ++ render_pairs l ++ [cSQ]) ++ render_toks tl) ++ cRP :: rest)
+      with (cDOL :: (cSQ :: render_pairs l ++ cSQ :: (render_toks tl ++ cRP :: rest)))
+      by (cbn; rewrite <- !app_assoc; reflexivity).
+    rewrite walk_complex_S. cbn [suf].
+    cbn -[walk_dollar walk_complex]. rewrite ?adv1_cons.
+    (rewrite walk_dollar_ansi; [|assumption|lia]). cbn [bind].
+    (rewrite IH; [|lia]); lastp_norm.
+  - (* TVar *)
+    assert (Hce : var_follow s cRP = true) by (unfold var_follow; cbn; now rewrite orb_true_r).
+    destruct (next_char' s tl cRP rest Hfo Hce) as (c & Y & EY & Hc).
+    replace (((cDOL :: s) ++ render_toks tl) ++ cRP :: rest) with (cDOL :: (s ++ (render_toks tl ++ cRP :: rest)))
+      by (cbn; rewrite <- app_assoc; reflexivity).
+    rewrite walk_complex_S. cbn [suf].
+    cbn -[walk_dollar walk_complex]. rewrite ?adv1_cons. rewrite EY.
+    (rewrite walk_dollar_var; [|assumption|reflexivity|assumption|lia]). cbn [bind]. rewrite <- EY.
+    (rewrite IH; [|lia]); lastp_norm.
+Qed.
+
+Lemma WFc_all l : forallb flat_tok l = true -> follows l = true -> WFc l.
+Proof.
+  induction l as [|t l IH]; intros H1 H3; [apply WFc_nil|].
+  cbn [forallb follows] in *. apply andb_true_iff in H1 as [A1 A2]. apply andb_true_iff in H3 as [C1 C2].
+  apply WFc_cons; auto.
+Qed.
+
+(* one iteration of process_scope (endchar ")") on a statement start *)
+Lemma ps_sub_step text0 rest n p ws out :
+  stmt_start_ok text0 = true ->
+  match text0 with c :: _ => negb (c =? cRP) | [] => false end = true ->
+  process_scope g (S n) (mkcur p (text0 ++ rest)) cRP None None ws None out =
+    (do c1 <- walk_complex g n (mkcur p (text0 ++ rest)) cRP COMMAND true;
+     process_scope g n (match hd_ c1 with
+                        | Some x => if x =? cRP then c1 else adv1 c1
+                        | None => c1 end) cRP None None ws None out).
+Proof.
+  intros H Hrp. destruct text0 as [|c r]; [discriminate|]. unfold stmt_start_ok in H.
+  apply andb_true_iff in H as [H HG]. apply andb_true_iff in H as [H HF].
+  apply andb_true_iff in H as [H HE]. apply andb_true_iff in H as [H HD].
+  apply andb_true_iff in H as [H HC]. apply andb_true_iff in H as [HA HB].
+  apply negb_true_iff in HA, HB, HC, HD, Hrp.
+  cbn [app]. rewrite process_scope_S. cbn [suf]. rewrite Hrp, HA, HB.
+  assert (HF' : is_function (mkcur p (c :: r ++ rest)) = None).
+  { destruct (name_stop c) eqn:Ens.
+    - apply is_function_stop; auto.
+      change (c :: r ++ rest) with ((c :: r) ++ rest). now apply diverges_app.
+    - cbn [orb] in HG. destruct (word_then (c :: r)) as [d|] eqn:W; [|discriminate].
+      apply negb_true_iff in HG. apply (is_function_none p c (r ++ rest) d); auto.
+      + change (c :: r ++ rest) with ((c :: r) ++ rest). now apply diverges_app.
+      + change (c :: r ++ rest) with ((c :: r) ++ rest). now apply word_then_app. }
+  rewrite HF'. rewrite is_envvar_none; auto.
+  change (c :: r ++ rest) with ((c :: r) ++ rest). now apply no_eq_app.
+Qed.
+
+Lemma walk_dollar_sub l n p rest endc dq :
+  sub_ok l = true -> (n > 3 * length (render_toks l) + 8)%nat ->
+  walk_dollar g n (mkcur p (cLP :: render_toks l ++ cRP :: rest)) endc dq = Ok (mkcur (Some cRP) rest).
+Proof.
+  unfold sub_ok. intros H Hn. apply andb_true_iff in H as [H Hne]. apply andb_true_iff in H as [H Hst].
+  apply andb_true_iff in H as [Hfl Hfo].
+  destruct n as [|n]; [lia|]. rewrite walk_dollar_S. cbn [suf].
+  change (cLP =? cLP) with true. cbn iota. rewrite ?adv1_cons.
+  destruct n as [|n]; [lia|].
+  replace (render_toks l ++ cRP :: rest) with ((render_toks l ++ [cRP]) ++ rest) by (rewrite <- app_assoc; reflexivity).
+  rewrite ps_sub_step; [|assumption|destruct (render_toks l); [discriminate|exact Hne]].
+  replace ((render_toks l ++ [cRP]) ++ rest) with (render_toks l ++ cRP :: rest) by (rewrite <- app_assoc; reflexivity).
+  rewrite (WFc_all l Hfl Hfo) by lia. cbn [bind hd_ suf]. change (cRP =? cRP) with true. cbn iota.
+  destruct n as [|n]; [lia|]. rewrite process_scope_S. cbn [suf]. change (cRP =? cRP) with true. cbn iota.
+  cbn [fst]. rewrite ?adv1_cons. reflexivity.
+Qed.
+End Sub.
+
 Section W2toks.
 Variable g : str.
 
@@ -435,11 +669,6 @@ Definition Inner (t : tok) : Prop :=
   | _ => True
   end.
 
-Lemma forallb_neq_sq s : forallb sq_char s = true -> forallb (fun x => negb (x =? cSQ)) s = true.
-Proof.
-  induction s as [|x s IH]; cbn; [reflexivity|]. intros H. apply andb_true_iff in H as [H1 H2].
-  unfold sq_char in H1. apply andb_true_iff in H1 as [H1 _]. rewrite H1. now apply IH.
-Qed.
 
 Lemma WEc_from_steps l : Forall WEstep l ->
   forallb (tok_ok true) l = true -> forallb deep_follow l = true -> follows l = true -> WEc l.
@@ -493,6 +722,7 @@ Definition dtok_ok (d : tok) : bool :=
   | TPE s => forallb pe_char s
   | TVar s => forallb is_ident s
   | TArith l2 => forallb (tok_ok true) l2
+  | TSub l2 => sub_ok l2
   | _ => false
   end.
 Lemma tok_ok_dqx b l : tok_ok b (TDqx l) = forallb dtok_ok l.
@@ -510,7 +740,7 @@ Lemma WDc_cons t tl :
   dtok_ok t = true -> Inner t -> deep_follow t = true -> follow_ok t tl = true -> WDc tl -> WDc (t :: tl).
 Proof.
   intros Hok Hin Hdf Hfo IH n p rest Hn. rewrite render_toks_cons in *.
-  destruct t as [c|c|s|l|s|l|s|l|l|l|l]; try discriminate Hok;
+  destruct t as [c|c|s|l|s|l|s|l|l| |l|l|l]; try discriminate Hok;
     cbn [render_tok dtok_ok] in *; rewrite ?app_length in Hn; cbn [length] in Hn; (destruct n as [|n]; [lia|]).
   - (* TLit *)
     change (([c] ++ render_toks tl) ++ cDQ :: rest) with (c :: (render_toks tl ++ cDQ :: rest)).
@@ -541,6 +771,13 @@ Proof.
       by (unfold render_toks; cbn; rewrite <- !app_assoc; reflexivity).
     rewrite walk_escaped_S. cbn [suf]. cbn -[walk_escaped walk_dollar]. rewrite ?adv1_cons.
     (rewrite walk_dollar_arith; [|assumption|fold (render_toks l) in Hn; lia]). cbn [bind].
+    (rewrite IH; [|lia]); fold (render_toks l); lastp_norm.
+  - (* TSub *)
+    replace ((([cDOL; cLP] ++ flat_map render_tok l ++ [cRP]) ++ render_toks tl) ++ cDQ :: rest)
+      with (cDOL :: (cLP :: render_toks l ++ cRP :: (render_toks tl ++ cDQ :: rest)))
+      by (unfold render_toks; cbn; rewrite <- !app_assoc; reflexivity).
+    rewrite walk_escaped_S. cbn [suf]. cbn -[walk_escaped walk_dollar]. rewrite ?adv1_cons.
+    (rewrite walk_dollar_sub; [|assumption|fold (render_toks l) in Hn; lia]). cbn [bind].
     (rewrite IH; [|lia]); fold (render_toks l); lastp_norm.
 Qed.
 
@@ -649,6 +886,17 @@ Proof.
     destruct He; subst endc; cbn -[walk_escaped]; rewrite ?adv1_cons;
       (rewrite Hl; [|fold (render_toks l) in Hn; lia]); cbn [bind]; rewrite adv1_cons;
       (rewrite IH; [|auto|lia]); fold (render_toks l); lastp_norm.
+  - (* THs *) split; [|exact I]. intros Hok. discriminate Hok.
+  - (* TSub *) intros l. split; [|exact I]. intros Hok Hdf tl Hfo IH endc n p rest He Hn.
+    rewrite render_toks_cons in *. cbn [render_tok] in *. rewrite !app_length in Hn. cbn [length] in Hn.
+    destruct n as [|n]; [lia|]. cbn [tok_ok] in Hok.
+    replace ((([cDOL; cLP] ++ flat_map render_tok l ++ [cRP]) ++ render_toks tl) ++ endc :: rest)
+      with (cDOL :: (cLP :: render_toks l ++ cRP :: (render_toks tl ++ endc :: rest)))
+      by (unfold render_toks; cbn; rewrite <- !app_assoc; reflexivity).
+    rewrite walk_escaped_S. cbn [suf].
+    destruct He; subst endc; cbn -[walk_escaped walk_dollar]; rewrite ?adv1_cons;
+      (rewrite walk_dollar_sub; [|assumption|fold (render_toks l) in Hn; lia]); cbn [bind];
+      (rewrite IH; [|auto|lia]); fold (render_toks l); lastp_norm.
   - (* TBr *) intros l HF. split; [|exact I]. intros Hok Hdf tl Hfo IH endc n p rest He Hn.
     assert (Hl : WEc l).
     { cbn [tok_ok deep_follow] in Hok, Hdf. apply andb_true_iff in Hdf as [D1 D2].
@@ -710,7 +958,7 @@ Lemma WCc_cons t tl :
 Proof.
   intros Hok Hdf Hfo IH n p rest sep first Hs Hn.
   rewrite render_toks_cons in *.
-  destruct t as [c|c|s|l|s|l|s|l|l|l|l]; cbn [render_tok] in *; rewrite ?app_length in Hn; cbn [length] in Hn;
+  destruct t as [c|c|s|l|s|l|s|l|l| |l|l|l]; cbn [render_tok] in *; rewrite ?app_length in Hn; cbn [length] in Hn;
     (destruct n as [|n]; [lia|]).
   - (* TLit *)
     change (([c] ++ render_toks tl) ++ sep :: rest) with (c :: (render_toks tl ++ sep :: rest)).
@@ -780,6 +1028,20 @@ Proof.
     cbn -[walk_escaped walk_complex]. rewrite ?adv1_cons.
     (rewrite (WDc_all g l Hok D2 D1); [|fold (render_toks l) in Hn; lia]). cbn [bind]. rewrite adv1_cons.
     (rewrite IH; [|auto|lia]); fold (render_toks l); lastp_norm.
+  - (* THs *)
+    change (([cLT; cLT; cLT] ++ render_toks tl) ++ sep :: rest) with (cLT :: cLT :: cLT :: (render_toks tl ++ sep :: rest)).
+    rewrite walk_complex_S. cbn [suf]. cbn -[walk_here walk_complex]. rewrite ?adv1_cons.
+    destruct n as [|n]; [lia|]. rewrite walk_here_lt. cbn [bind].
+    (rewrite IH; [|auto|lia]); lastp_norm.
+  - (* TSub *)
+    cbn [tok_ok1 tok_ok] in Hok.
+    replace ((([cDOL; cLP] ++ flat_map render_tok l ++ [cRP]) ++ render_toks tl) ++ sep :: rest)
+      with (cDOL :: (cLP :: render_toks l ++ cRP :: (render_toks tl ++ sep :: rest)))
+      by (unfold render_toks; cbn; rewrite <- !app_assoc; reflexivity).
+    rewrite walk_complex_S. cbn [suf].
+    cbn -[walk_dollar walk_complex]. rewrite ?adv1_cons.
+    (rewrite walk_dollar_sub; [|assumption|fold (render_toks l) in Hn; lia]). cbn [bind].
+    (rewrite IH; [|auto|lia]); fold (render_toks l); lastp_norm.
   - (* TBr *)
     replace ((([cLB] ++ flat_map render_tok l ++ [cRB]) ++ render_toks tl) ++ sep :: rest)
       with (cLB :: (render_toks l ++ cRB :: (render_toks tl ++ sep :: rest)))
@@ -809,85 +1071,6 @@ Proof.
 Qed.
 End W1.
 
-(* ---------------------------------------------------------------- statement starts *)
-Lemma isblank_isspace c : isblank c = true -> isspace c = true.
-Proof.
-  unfold isblank. intros H. apply orb_true_iff in H as [H|H]; apply N.eqb_eq in H; subst; reflexivity.
-Qed.
-
-Lemma no_eq_app a b : no_eq_before_stop a = true -> no_eq_before_stop (a ++ b) = true.
-Proof.
-  induction a as [|c a IH]; cbn [no_eq_before_stop app]; [discriminate|].
-  destruct (envvar_stop c); [reflexivity|]. destruct (c =? cEQ); [discriminate|]. exact IH.
-Qed.
-Lemma first_nonblank_app a b d : first_nonblank a = Some d -> first_nonblank (a ++ b) = Some d.
-Proof.
-  induction a as [|c a IH]; cbn [first_nonblank app]; [discriminate|]. destruct (isblank c); [exact IH|auto].
-Qed.
-Lemma word_then_app a b d : word_then a = Some d -> word_then (a ++ b) = Some d.
-Proof.
-  induction a as [|c a IH]; cbn [word_then app]; [discriminate|].
-  destruct (name_stop c); [|exact IH].
-  intros H. change (c :: a ++ b) with ((c :: a) ++ b). now apply first_nonblank_app.
-Qed.
-Lemma diverges_app w a b : diverges w a = true -> starts_with w (a ++ b) = false.
-Proof.
-  revert a; induction w as [|x w IH]; intros [|y a]; cbn; try discriminate.
-  destruct (x =? y); [|reflexivity]. intros H. rewrite IH by assumption. reflexivity.
-Qed.
-
-Lemma envvar_scan_none s : forall f p, no_eq_before_stop s = true -> envvar_scan f p s = None.
-Proof.
-  induction s as [|c s IH]; intros f p; cbn [no_eq_before_stop envvar_scan]; [discriminate|].
-  destruct (envvar_stop c); [reflexivity|]. destruct (c =? cEQ); [discriminate|]. apply IH.
-Qed.
-
-Lemma skip_blank_spec t : forall p,
-  match skip_while isblank p t with
-  | None => first_nonblank t = None
-  | Some c => exists x r, suf c = x :: r /\ first_nonblank t = Some x
-  end.
-Proof.
-  induction t as [|d t IH]; intros p; cbn [skip_while first_nonblank]; [reflexivity|].
-  destruct (isblank d); [apply IH|]. cbn [suf]. eauto.
-Qed.
-
-Lemma word_then_skip s : forall p,
-  match skip_while (fun x => negb (name_stop x)) p s with
-  | None => word_then s = None
-  | Some c => word_then s = first_nonblank (suf c)
-  end.
-Proof.
-  induction s as [|c s IH]; intros p; cbn [skip_while word_then]; [reflexivity|].
-  destruct (name_stop c); cbn [negb]; [reflexivity|apply IH].
-Qed.
-
-Lemma is_envvar_none p c r :
-  isspace c = false -> no_eq_before_stop (c :: r) = true -> is_envvar (mkcur p (c :: r)) = None.
-Proof.
-  intros Hc H. unfold is_envvar. cbn [prev suf skip_while].
-  destruct (isblank c) eqn:E; [apply isblank_isspace in E; congruence|].
-  cbn [opt_bind prev suf]. now rewrite envvar_scan_none.
-Qed.
-
-Lemma is_function_none p c r d :
-  isspace c = false -> starts_with kw_function (c :: r) = false ->
-  word_then (c :: r) = Some d -> (d =? cLP) = false ->
-  is_function (mkcur p (c :: r)) = None.
-Proof.
-  intros Hc Hk Hw Hd. unfold is_function. cbn [prev suf skip_while].
-  destruct (isblank c) eqn:E; [apply isblank_isspace in E; congruence|].
-  cbn [opt_bind prev suf]. rewrite Hk. cbn [prev suf skip_while]. rewrite Hc. cbn [opt_bind prev suf].
-  pose proof (word_then_skip (c :: r) p) as W.
-  destruct (skip_while (fun x => negb (name_stop x)) p (c :: r)) as [c4|]; [|reflexivity].
-  cbn [opt_bind]. destruct (slice (c :: r) (suf c4)); [reflexivity|].
-  rewrite Hw in W.
-  pose proof (skip_blank_spec (suf c4) (prev c4)) as B.
-  destruct (skip_while isblank (prev c4) (suf c4)) as [c5|]; [|reflexivity].
-  cbn [opt_bind]. destruct B as (x & r5 & E5 & F). rewrite E5.
-  rewrite F in W. injection W as ->. rewrite Hd. reflexivity.
-Qed.
-
 (* ---------------------------------------------------------------- the body of a function *)
 Section Body.
 Variable g : str.
@@ -916,14 +1099,18 @@ Proof.
   apply andb_true_iff in H as [H HG]. apply andb_true_iff in H as [H HF].
   apply andb_true_iff in H as [H HE]. apply andb_true_iff in H as [H HD].
   apply andb_true_iff in H as [H HC]. apply andb_true_iff in H as [HA HB].
-  destruct (word_then (c :: r)) as [d|] eqn:W; [|discriminate].
-  apply negb_true_iff in HA, HB, HC, HD, HG.
+  apply negb_true_iff in HA, HB, HC, HD.
   cbn [app]. rewrite process_scope_S. cbn [suf]. rewrite HC, HA, HB.
-  rewrite (is_function_none p c (r ++ rest) d); auto.
-  - rewrite is_envvar_none; auto.
-    change (c :: r ++ rest) with ((c :: r) ++ rest). now apply no_eq_app.
-  - change (c :: r ++ rest) with ((c :: r) ++ rest). now apply diverges_app.
-  - change (c :: r ++ rest) with ((c :: r) ++ rest). now apply word_then_app.
+  assert (HF' : is_function (mkcur p (c :: r ++ rest)) = None).
+  { destruct (name_stop c) eqn:Ens.
+    - apply is_function_stop; auto.
+      change (c :: r ++ rest) with ((c :: r) ++ rest). now apply diverges_app.
+    - cbn [orb] in HG. destruct (word_then (c :: r)) as [d|] eqn:W; [|discriminate].
+      apply negb_true_iff in HG. apply (is_function_none p c (r ++ rest) d); auto.
+      + change (c :: r ++ rest) with ((c :: r) ++ rest). now apply diverges_app.
+      + change (c :: r ++ rest) with ((c :: r) ++ rest). now apply word_then_app. }
+  rewrite HF'. rewrite is_envvar_none; auto.
+  change (c :: r ++ rest) with ((c :: r) ++ rest). now apply no_eq_app.
 Qed.
 
 Lemma PB b : forall n p rest ws out,
